@@ -31,6 +31,7 @@ theorem runProg_frame (inv : Inv) (hinv : InvFrame inv) (p : Prog) :
   induction p with
   | ret r => intro s; exact Frame.refl s
   | fail => intro s; exact Frame.refl s
+  | panic => intro s; exact ⟨rfl, rfl, rfl, rfl, rfl⟩
   | get k f ih => intro s; simp only [runProg]; exact ih _ s
   | put k v n ih => intro s; simp only [runProg]; refine Frame.trans ?_ (ih _); exact ⟨rfl, rfl, rfl, rfl, rfl⟩
   | del k n ih => intro s; simp only [runProg]; refine Frame.trans ?_ (ih _); exact ⟨rfl, rfl, rfl, rfl, rfl⟩
@@ -41,8 +42,10 @@ theorem runProg_frame (inv : Inv) (hinv : InvFrame inv) (p : Prog) :
     simp only [runProg]
     have h1 : Frame s (inv { s with input := encodeParam a m args }).2 := by
       refine Frame.trans ?_ (hinv _); exact ⟨rfl, rfl, rfl, rfl, rfl⟩
-    refine Frame.trans (Frame.trans h1 ?_) (ih _ _)
-    split <;> exact ⟨rfl, rfl, rfl, rfl, rfl⟩
+    split
+    · exact h1
+    · refine Frame.trans (Frame.trans h1 ?_) (ih _ _)
+      split <;> exact ⟨rfl, rfl, rfl, rfl, rfl⟩
   | witness a f ih => intro s; simp only [runProg]; exact ih _ s
   | getInput f ih => intro s; simp only [runProg]; exact ih _ s
   | context f ih => intro s; simp only [runProg]; exact ih _ _ s
@@ -54,7 +57,7 @@ theorem invokeStep_elim {P : CallRes × Svc → Prop} (reg : Registry) (inv : In
     (h_err : ∀ sm, P (.err, { s with serviceMap := sm }))
     (h_ctx : ∀ sm args, s.contexts.length > maxContextLen → P (.ctxErr, ctxErrState s sm args))
     (h_fail : ∀ sm addr args (p : Prog) s3, ¬ s.contexts.length > maxContextLen →
-      runProg leafHash inv p (enter s sm addr args) = (none, s3) → P (.err, s3))
+      runProg leafHash inv p (enter s sm addr args) = (none, s3) → P (if s3.panicked then .panic else .err, s3))
     (h_ok : ∀ sm addr args (p : Prog) r s3, ¬ s.contexts.length > maxContextLen →
       runProg leafHash inv p (enter s sm addr args) = (some r, s3) → P (.ok r, leave s s3)) :
     P (invokeStep leafHash reg inv s) := by
@@ -99,6 +102,7 @@ theorem runProg_mono (inv : Inv) (hinv : InvMono inv) (p : Prog) :
   induction p with
   | ret r => intro s; exact Nat.le_refl _
   | fail => intro s; exact Nat.le_refl _
+  | panic => intro s; exact Nat.le_refl _
   | get k f ih => intro s; simp only [runProg]; exact ih _ s
   | put k v n ih => intro s; simp only [runProg]; refine Nat.le_trans ?_ (ih _); exact Nat.le_refl _
   | del k n ih => intro s; simp only [runProg]; refine Nat.le_trans ?_ (ih _); exact Nat.le_refl _
@@ -108,10 +112,12 @@ theorem runProg_mono (inv : Inv) (hinv : InvMono inv) (p : Prog) :
     intro s
     simp only [runProg]
     have h1 := hinv { s with input := encodeParam a m args }
-    refine Nat.le_trans (Nat.le_trans h1 ?_) (ih _ _)
     split
-    · exact Nat.le_refl _
-    · exact Nat.le_succ _
+    · exact h1
+    · refine Nat.le_trans (Nat.le_trans h1 ?_) (ih _ _)
+      split
+      · exact Nat.le_refl _
+      · exact Nat.le_succ _
   | witness a f ih => intro s; simp only [runProg]; exact ih _ s
   | getInput f ih => intro s; simp only [runProg]; exact ih _ s
   | context f ih => intro s; simp only [runProg]; exact ih _ _ s
@@ -186,64 +192,73 @@ def InvKeeps (inv : Inv) : Prop :=
   ∀ s r, (inv s).1 = .ok r → (inv s).2.swallowed = s.swallowed → ∃ new, Keeps s (inv s).2 new
 
 theorem runProg_keeps (inv : Inv) (hm : InvMono inv) (hk : InvKeeps inv) (p : Prog) :
-    ∀ s, (runProg leafHash inv p s).2.swallowed = s.swallowed → ∃ new, Keeps s (runProg leafHash inv p s).2 new := by
+    ∀ s r0, (runProg leafHash inv p s).1 = some r0 → (runProg leafHash inv p s).2.swallowed = s.swallowed →
+      ∃ new, Keeps s (runProg leafHash inv p s).2 new := by
   induction p with
-  | ret r => intro s _; exact ⟨[], by simp [runProg], by simp [runProg, notifsOf], by simp [runProg, crossesOf], by simp [runProg, writesOf, applyWrites]⟩
-  | fail => intro s _; exact ⟨[], by simp [runProg], by simp [runProg, notifsOf], by simp [runProg, crossesOf], by simp [runProg, writesOf, applyWrites]⟩
-  | get k f ih => intro s h; simp only [runProg] at h ⊢; exact ih _ s h
+  | ret r => intro s _ _ _; exact ⟨[], by simp [runProg], by simp [runProg, notifsOf], by simp [runProg, crossesOf], by simp [runProg, writesOf, applyWrites]⟩
+  | fail => intro s r0 h0 _; simp [runProg] at h0
+  | panic => intro s r0 h0 _; simp [runProg] at h0
+  | get k f ih => intro s r0 h0 h; simp only [runProg] at h0 h ⊢; exact ih _ s r0 h0 h
   | put k v n ih =>
-    intro s h; simp only [runProg] at h ⊢
-    obtain ⟨new, hk'⟩ := ih _ h
+    intro s r0 h0 h; simp only [runProg] at h0 h ⊢
+    obtain ⟨new, hk'⟩ := ih _ r0 h0 h
     exact ⟨[.write (stPrefix :: k) v] ++ new, Keeps.trans ⟨rfl, by simp [notifsOf], by simp [crossesOf], by simp [writesOf, applyWrites]⟩ hk'⟩
   | del k n ih =>
-    intro s h; simp only [runProg] at h ⊢
-    obtain ⟨new, hk'⟩ := ih _ h
+    intro s r0 h0 h; simp only [runProg] at h0 h ⊢
+    obtain ⟨new, hk'⟩ := ih _ r0 h0 h
     exact ⟨[.write (stPrefix :: k) []] ++ new, Keeps.trans ⟨rfl, by simp [notifsOf], by simp [crossesOf], by simp [writesOf, applyWrites]⟩ hk'⟩
   | notify ev n ih =>
-    intro s h; simp only [runProg] at h ⊢
-    obtain ⟨new, hk'⟩ := ih _ h
+    intro s r0 h0 h; simp only [runProg] at h0 h ⊢
+    obtain ⟨new, hk'⟩ := ih _ r0 h0 h
     exact ⟨[.event ev] ++ new, Keeps.trans ⟨rfl, by simp [notifsOf], by simp [crossesOf], by simp [writesOf, applyWrites]⟩ hk'⟩
   | merkle d n ih =>
-    intro s h; simp only [runProg] at h ⊢
-    obtain ⟨new, hk'⟩ := ih _ h
+    intro s r0 h0 h; simp only [runProg] at h0 h ⊢
+    obtain ⟨new, hk'⟩ := ih _ r0 h0 h
     exact ⟨[.cross (leafHash d)] ++ new, Keeps.trans ⟨rfl, by simp [notifsOf], by simp [crossesOf], by simp [writesOf, applyWrites]⟩ hk'⟩
   | call a m args f ih =>
-    intro s h
-    simp only [runProg] at h ⊢
+    intro s r0 h0 h
+    simp only [runProg] at h0 h ⊢
     -- the nested invocation
-    generalize hq : inv { s with input := encodeParam a m args } = q at h ⊢
+    generalize hq : inv { s with input := encodeParam a m args } = q at h0 h ⊢
     obtain ⟨r, s'⟩ := q
     have hm1 : s.swallowed ≤ s'.swallowed := by
       have := hm { s with input := encodeParam a m args }; rw [hq] at this; exact this
-    cases r with
-    | ok v =>
-      simp only at h ⊢
-      have hm2 := runProg_mono leafHash inv hm (f (.ok v)) s'
-      have heq : s'.swallowed = s.swallowed := by omega
-      obtain ⟨n1, k1⟩ : ∃ new, Keeps { s with input := encodeParam a m args } s' new := by
-        have := hk { s with input := encodeParam a m args } v (by rw [hq]) (by rw [hq]; exact heq)
-        rw [hq] at this; exact this
-      obtain ⟨n2, k2⟩ := ih (.ok v) s' (by omega)
-      exact ⟨n1 ++ n2, Keeps.trans ⟨k1.effLog, k1.notifications, k1.crossHashes, k1.cache⟩ k2⟩
-    | ctxErr =>
-      simp only at h
-      have hm2 := runProg_mono leafHash inv hm (f .ctxErr) { s' with swallowed := s'.swallowed + 1 }
-      simp only at hm2; omega
-    | err =>
-      simp only at h
-      have hm2 := runProg_mono leafHash inv hm (f .err) { s' with swallowed := s'.swallowed + 1 }
-      simp only at hm2; omega
-    | diverge =>
-      simp only at h
-      have hm2 := runProg_mono leafHash inv hm (f .diverge) { s' with swallowed := s'.swallowed + 1 }
-      simp only at hm2; omega
-  | witness a f ih => intro s h; simp only [runProg] at h ⊢; exact ih _ s h
-  | getInput f ih => intro s h; simp only [runProg] at h ⊢; exact ih _ s h
-  | context f ih => intro s h; simp only [runProg] at h ⊢; exact ih _ _ s h
-  | blockInfo f ih => intro s h; simp only [runProg] at h ⊢; exact ih _ _ s h
+    by_cases hp : s'.panicked = true
+    · simp [hp] at h0
+    · rw [if_neg hp] at h0 h ⊢
+      cases r with
+      | ok v =>
+        simp only at h0 h ⊢
+        have hm2 := runProg_mono leafHash inv hm (f (.ok v)) s'
+        have heq : s'.swallowed = s.swallowed := by omega
+        obtain ⟨n1, k1⟩ : ∃ new, Keeps { s with input := encodeParam a m args } s' new := by
+          have := hk { s with input := encodeParam a m args } v (by rw [hq]) (by rw [hq]; exact heq)
+          rw [hq] at this; exact this
+        obtain ⟨n2, k2⟩ := ih (.ok v) s' r0 h0 (by omega)
+        exact ⟨n1 ++ n2, Keeps.trans ⟨k1.effLog, k1.notifications, k1.crossHashes, k1.cache⟩ k2⟩
+      | ctxErr =>
+        simp only at h
+        have hm2 := runProg_mono leafHash inv hm (f .ctxErr) { s' with swallowed := s'.swallowed + 1 }
+        simp only at hm2; omega
+      | err =>
+        simp only at h
+        have hm2 := runProg_mono leafHash inv hm (f .err) { s' with swallowed := s'.swallowed + 1 }
+        simp only at hm2; omega
+      | diverge =>
+        simp only at h
+        have hm2 := runProg_mono leafHash inv hm (f .diverge) { s' with swallowed := s'.swallowed + 1 }
+        simp only at hm2; omega
+      | panic =>
+        simp only at h
+        have hm2 := runProg_mono leafHash inv hm (f .panic) { s' with swallowed := s'.swallowed + 1 }
+        simp only at hm2; omega
+  | witness a f ih => intro s r0 h0 h; simp only [runProg] at h0 h ⊢; exact ih _ s r0 h0 h
+  | getInput f ih => intro s r0 h0 h; simp only [runProg] at h0 h ⊢; exact ih _ s r0 h0 h
+  | context f ih => intro s r0 h0 h; simp only [runProg] at h0 h ⊢; exact ih _ _ s r0 h0 h
+  | blockInfo f ih => intro s r0 h0 h; simp only [runProg] at h0 h ⊢; exact ih _ _ s r0 h0 h
   | log m n ih =>
-    intro s h; simp only [runProg] at h ⊢
-    obtain ⟨new, hk'⟩ := ih _ h
+    intro s r0 h0 h; simp only [runProg] at h0 h ⊢
+    obtain ⟨new, hk'⟩ := ih _ r0 h0 h
     exact ⟨new, ⟨hk'.effLog, hk'.notifications, hk'.crossHashes, hk'.cache⟩⟩
 
 theorem invokeStep_keeps (reg : Registry) (inv : Inv) (hm : InvMono inv) (hk : InvKeeps inv) :
@@ -253,11 +268,11 @@ theorem invokeStep_keeps (reg : Registry) (inv : Inv) (hm : InvMono inv) (hk : I
     (P := fun x => ∀ r, x.1 = .ok r → x.2.swallowed = s.swallowed → ∃ new, Keeps s x.2 new)
   · intro sm r h; cases h
   · intro sm args _ r h; cases h
-  · intro sm addr args p s3 _ _ r h; cases h
+  · intro sm addr args p s3 _ _ r h; split at h <;> cases h
   · intro sm addr args p r s3 _ heq r' _ hsw
-    have := runProg_keeps leafHash inv hm hk p (enter s sm addr args)
+    have := runProg_keeps leafHash inv hm hk p (enter s sm addr args) r
     rw [heq] at this
-    obtain ⟨new, k⟩ := this hsw
+    obtain ⟨new, k⟩ := this rfl hsw
     refine ⟨new, ⟨k.effLog, ?_, ?_, k.cache⟩⟩
     · show s.notifications ++ s3.notifications = _
       rw [k.notifications]; simp [enter]
@@ -278,7 +293,8 @@ theorem execTx_cases (reg : Registry) (env : BlockEnv) (bs : BlockState) (tx : T
     (∃ r s, invokeF leafHash reg fuel (newService env { bs with cache := [] } tx) = (r, s) ∧
       ((r.failed = true ∧ execTx leafHash reg env bs tx =
           ({ overlay := s.overlay, cache := s.cache },
-           { ok := false, notify := [], cross := [], log := s.log, effs := s.effLog, swallowed := s.swallowed })) ∨
+           { ok := false, notify := [], cross := [], log := s.log, effs := s.effLog, swallowed := s.swallowed,
+             panicked := s.panicked })) ∨
        (r.failed = false ∧ execTx leafHash reg env bs tx =
           ({ overlay := s.cache.commitInto s.overlay, cache := s.cache },
            { ok := true, notify := s.notifications, cross := s.crossHashes, log := s.log, effs := s.effLog,
@@ -404,7 +420,7 @@ theorem toplevel_not_ctxErr (reg : Registry) (env : BlockEnv) (bs : BlockState) 
   apply invokeStep_elim leafHash reg _ (newService env bs tx) (P := fun x => x.1 ≠ .ctxErr)
   · intro sm h; cases h
   · intro sm args hlen; simp [newService, maxContextLen] at hlen
-  · intro sm addr args p s3 _ _ h; cases h
+  · intro sm addr args p s3 _ _ h; split at h <;> cases h
   · intro sm addr args p r s3 _ _ h; cases h
 
 theorem execTx_ok_keeps (reg : Registry) (env : BlockEnv) (bs : BlockState) (tx : Tx)
@@ -427,6 +443,7 @@ theorem execTx_ok_keeps (reg : Registry) (env : BlockEnv) (bs : BlockState) (tx 
       | ctxErr => exact absurd rfl hctx
       | err => cases hnf
       | diverge => cases hnf
+      | panic => cases hnf
     have hk := invokeF_keeps leafHash reg fuel (newService env { bs with cache := [] } tx) v
       (by rw [hq, hv]) (by rw [hq]; exact hsw)
     rw [hq] at hk
